@@ -1,10 +1,12 @@
 use crate::report::{Cfg, Outcome};
 
 pub mod c01;
+pub mod c25;
 
 pub fn dispatch(cfg: &Cfg) -> Option<Outcome> {
     Some(match cfg.prop.as_str() {
         "C01" => c01::run(cfg),
+        "C25" => c25::run(cfg),
         _ => return None,
     })
 }
